@@ -196,6 +196,8 @@ func (fx *fmtExtractor) emitTokenOf(in ssa.Instruction) (fmtTok, bool) {
 		return fmtTok{}, false
 	}
 	full := f.String()
+	// v2 keeps the same primitives in package path …/v2/internal (package encoding)
+	full = strings.Replace(full, "/v2/internal.", "/v2/internal/encoding.", 1)
 	args := call.Call.Args
 	r := func(i int) string {
 		s := roleOf(fx.l, args[i], fx.recv, 0)
@@ -261,7 +263,7 @@ func (fx *fmtExtractor) consumeTokenOf(in ssa.Instruction) (fmtTok, bool) {
 	if f == nil {
 		return fmtTok{}, false
 	}
-	full := f.String()
+	full := strings.Replace(f.String(), "/v2/internal.", "/v2/internal/encoding.", 1)
 	var kind string
 	switch {
 	case strings.HasSuffix(full, "internal/encoding.DecodeVarint"):
